@@ -98,5 +98,5 @@ struct Stats {
 #include "geoslib_io.h"
 namespace vh {
 inline void sinkMessage(const char*) {}
-inline void muteLibrary() { redefine_message(sinkMessage); redefine_error(sinkMessage); }
+inline void muteLibrary() { if (getenv("VERIF_NOMUTE")) return; redefine_message(sinkMessage); redefine_error(sinkMessage); }
 }
